@@ -104,6 +104,13 @@ func (fr *Frame) call(x *ssa.Call, st *State, reach string) Val {
 		post := fr.calleeEnv(t, targs, st, pre)
 		post.results = out
 		for _, en := range fc.Ensures {
+			if strings.Contains(en.Text, "local(") {
+				continue
+			}
+			g := fr.evalBool(en.E, post, en)
+			c.assume(sImp(sAnd(reach, guards[i]), g))
+		}
+		for _, en := range fc.Defines {
 			g := fr.evalBool(en.E, post, en)
 			c.assume(sImp(sAnd(reach, guards[i]), g))
 		}
@@ -245,6 +252,9 @@ func (fr *Frame) callByContract(callee *ssa.Function, fc *FuncContract, args []V
 		tags := rq.Tags
 		if len(tags) == 0 {
 			tags = fr.safetyTags
+			if c.topFrame != nil {
+				tags = c.topFrame.allTags()
+			}
 		}
 		c.oblige(fr.oname("call:"+name+"/requires", clauseLabel(rq, i)), "requires", tags, reach, g, line, callText+" :: "+rq.Text)
 	}
@@ -265,6 +275,13 @@ func (fr *Frame) callByContract(callee *ssa.Function, fc *FuncContract, args []V
 	post := fr.calleeEnv(callee, args, st, pre)
 	post.results = res
 	for _, en := range fc.Ensures {
+		if strings.Contains(en.Text, "local(") {
+			continue // about the callee's own locals: proved there, not visible to callers
+		}
+		g := fr.evalBool(en.E, post, en)
+		c.assume(sImp(reach, g))
+	}
+	for _, en := range fc.Defines {
 		g := fr.evalBool(en.E, post, en)
 		c.assume(sImp(reach, g))
 	}
